@@ -203,8 +203,24 @@ def generate(rng, tier):
             continue
         out.append({"k": "c12.edges", "faces": f, "nv": nverts(f), "timeout_ms": 5000})
         out.append({"k": "c12.patches", "faces": f, "nv": nverts(f), "timeout_ms": 5000})
+        out.append({"k": "c12.patch_boundaries", "faces": f, "nv": nverts(f), "reps": 3, "timeout_ms": 5000})
         out.append(gen_chain(rng))
         out.append(gen_clusters(rng))
+    for _ in range(n // 5):
+        # patches with several boundary loops: open tubes (two rims), plates with holes
+        st = rng.randint(3, 12)
+        tube = [[2 * i, 2 * ((i + 1) % st) + 1, 2 * i + 1] for i in range(st)] + [[2 * i, 2 * ((i + 1) % st), 2 * ((i + 1) % st) + 1] for i in range(st)]
+        out.append({"k": "c12.patch_boundaries", "faces": tube, "nv": 2 * st, "reps": 4, "timeout_ms": 5000})
+        m = rng.choice([4, 5, 6])
+        holes = set(rng.sample([(i, j) for i in range(1, m - 1) for j in range(1, m - 1)], rng.randint(1, 3)))
+        plate = []
+        for j in range(m):
+            for i in range(m):
+                if (i, j) in holes:
+                    continue
+                a = j * (m + 1) + i
+                plate += [[a, a + 1, a + m + 2], [a, a + m + 2, a + m + 1]]
+        out.append({"k": "c12.patch_boundaries", "faces": plate, "nv": (m + 1) * (m + 1), "reps": 4, "timeout_ms": 5000})
     for _ in range(n // 10):
         out.append({"k": "c12.box", "w": rng.uniform(0.1, 10), "h": rng.uniform(0.1, 10), "d": rng.uniform(0.1, 10)})
         out.append({"k": "c12.cyl", "r": rng.uniform(0.1, 10), "h": rng.uniform(0.1, 10), "steps": rng.randint(3, 40)})
@@ -258,7 +274,7 @@ def tag(c, r):
     k = c["k"]
     if isinstance(r, dict) and (r.get("timeout") or r.get("panic")):
         return k + (":timeout" if r.get("timeout") else ":panic")
-    if k in ("c12.edges", "c12.patches"):
+    if k in ("c12.edges", "c12.patches", "c12.patch_boundaries"):
         if not c["faces"]:
             return "trivial"
         tags, _, _ = classify(c["faces"])
@@ -378,6 +394,48 @@ def oracle(c, r):
             got = sorted(sorted(p) for p in run)
             if got != want:
                 yield ("patches-partition", "get_patches = %r on %r; edge-connected components are %r" % (run, faces, want))
+                return
+    elif k == "c12.patch_boundaries":
+        faces = [tuple(f) for f in c["faces"]]
+        byedge = {}
+        for i, (a, b, cc) in enumerate(faces):
+            for e in ((a, b), (b, cc), (cc, a)):
+                byedge.setdefault(ukey(*e), []).append(i)
+        if any(len(v) > 2 for v in byedge.values()):
+            return      # "will not work on non-manifold meshes"
+        pairs = [(fs[0], x) for fs in byedge.values() for x in fs[1:]]
+        comps = components(len(faces), pairs)
+        # the boundary of a patch: the edges that one face of the patch has and no other, in the direction that face runs them
+        want = []
+        for comp in comps:
+            cnt = {}
+            for i in comp:
+                a, b, cc = faces[i]
+                for e in ((a, b), (b, cc), (cc, a)):
+                    cnt[ukey(*e)] = cnt.get(ukey(*e), 0) + 1
+            for i in comp:
+                a, b, cc = faces[i]
+                want += [e for e in ((a, b), (b, cc), (cc, a)) if cnt[ukey(*e)] == 1]
+        outs = {}
+        for e in want:
+            outs[e[0]] = outs.get(e[0], 0) + 1
+        ins = {}
+        for e in want:
+            ins[e[1]] = ins.get(e[1], 0) + 1
+        clean = all(v == 1 for v in outs.values()) and all(v == 1 for v in ins.values())      # every boundary vertex is entered once and left once
+        for run in r["runs"]:
+            if run.get("err"):
+                if clean:
+                    yield ("patch-boundary", "get_patch_boundary_points failed on %r although every boundary vertex has one way in and one way out" % (faces,))
+                    return
+                continue
+            got = []
+            for lp in run["loops"]:
+                got += [(lp[i], lp[(i + 1) % len(lp)]) for i in range(len(lp))]
+            if sorted(got) != sorted(want):
+                miss = sorted(set(want) - set(got))
+                extra = sorted(set(got) - set(want))
+                yield ("patch-boundary", "get_patch_boundary_points on %r: %d loops %r; boundary edges missing %r, not boundary edges %r" % (faces, len(run["loops"]), run["loops"], miss[:8], extra[:8]))
                 return
     elif k == "c12.chain":
         pairs = [tuple(p) for p in c["pairs"]]
